@@ -48,7 +48,7 @@ func conformantMessage(e *netEnv, pre bool) (string, []byte, bool) {
 		return m.Command(), encodeMsg(m), false
 	case 2:
 		m := wire.NewMsgInv()
-		n := pick("invcount", 4)
+		n := pick("invcount", verifParam("maxlist", 3)+1)
 		for i := 0; i < n; i++ {
 			h := symHash(fmt.Sprintf("inv%d", i))
 			h[0] = byte(i) // the tx manager buckets by first byte: concrete bucket, symbolic rest
@@ -61,7 +61,7 @@ func conformantMessage(e *netEnv, pre bool) (string, []byte, bool) {
 		return m.Command(), encodeMsg(m), false
 	case 3:
 		m := wire.NewMsgHeaders()
-		n := pick("headercount", 3)
+		n := pick("headercount", verifParam("maxlist", 2)+1)
 		for i := 0; i < n; i++ {
 			h := &wire.BlockHeader{Version: 1, Timestamp: nondetU32(fmt.Sprintf("htime%d", i)), Bits: 0x1d00ffff, Nonce: nondetU32(fmt.Sprintf("hnonce%d", i))}
 			h.PrevBlock = symHash(fmt.Sprintf("hprev%d", i))
@@ -70,7 +70,7 @@ func conformantMessage(e *netEnv, pre bool) (string, []byte, bool) {
 		return m.Command(), encodeMsg(m), false
 	case 4:
 		m := wire.NewMsgAddr()
-		n := pick("addrcount", 3)
+		n := pick("addrcount", verifParam("maxlist", 2)+1)
 		for i := 0; i < n; i++ {
 			ip := nondetBytes(fmt.Sprintf("ip%d", i), 16)
 			m.AddAddress(wire.NewNetAddressIPPort(ip, nondetU16(fmt.Sprintf("port%d", i)), wire.SFNodeNetwork))
@@ -88,7 +88,7 @@ func conformantMessage(e *netEnv, pre bool) (string, []byte, bool) {
 	case 9:
 		// block: header, tx count, txs; requested or not
 		h := &wire.BlockHeader{Version: 1, Timestamp: nondetU32("btime"), Bits: 0x1d00ffff, Nonce: 5}
-		ntx := pick("blocktxs", 3)
+		ntx := pick("blocktxs", verifParam("maxlist", 2)+1)
 		var buf []byte
 		{
 			b := &wire.MsgBlock{Header: *h}
@@ -271,5 +271,53 @@ func VerifC14FullLists() {
 		}
 	}
 	verifAssert(gotPong, "ping-after-message-not-answered:"+cmd)
+	verifReach("done")
+}
+
+func init() {
+	verifHarnesses["VerifC14Sequence"] = VerifC14Sequence
+}
+
+// VerifC14Sequence: a sequence of well-formed messages of any kinds (so that a message meets the
+// state the previous ones left: an announced transaction then delivered, a requested block then
+// another block, repeated headers), each consumed to its declared length; the ping that follows
+// is answered.
+func VerifC14Sequence() {
+	count := verifParam("messages", 2)
+	e := newNetEnv(nondetBool("with-tx-manager"))
+	e.makeReady()
+	var stream []byte
+	var ends []int
+	var cmds []string
+	for k := 0; k < count; k++ {
+		cmd, payload, mayExtend := conformantMessage(e, false)
+		extended := mayExtend && nondetBool("extended-framing")
+		stream = append(stream, frameMsg(cmd, payload, extended)...)
+		ends = append(ends, len(stream))
+		cmds = append(cmds, cmd)
+	}
+	nonce := nondetU64("ping-nonce")
+	stream = append(stream, frameMsg(wire.CmdPing, encodeMsg(wire.NewMsgPing(nonce)), false)...)
+	e.conn.in = stream
+	for k := 0; k < count; k++ {
+		err := e.node.handleMessage(e.ctx, e.conn)
+		verifObserve("message", k, cmds[k], err == nil, e.conn.pos, ends[k])
+		if err != nil || e.conn.closed {
+			verifReach("dropped")
+			return
+		}
+		verifAssert(e.conn.pos == ends[k], "message-not-consumed-to-its-declared-length:"+cmds[k])
+		e.drainOutgoing()
+	}
+	err := e.node.handleMessage(e.ctx, e.conn)
+	verifAssert(err == nil, "ping-after-sequence-fails:"+cmds[count-1])
+	gotPong := false
+	for _, m := range e.drainOutgoing() {
+		if p, ok := m.(*wire.MsgPong); ok {
+			gotPong = true
+			verifAssert(p.Nonce == nonce, "pong-carries-wrong-nonce")
+		}
+	}
+	verifAssert(gotPong, "ping-after-sequence-not-answered:"+cmds[count-1])
 	verifReach("done")
 }
